@@ -13,7 +13,7 @@ TRUSTED = [
     'gotrans (go/ast table extractor) for the regenerated tables',
     'extraction with ExtrOcamlBasic only (Extract Inductive for bool, option, unit, list, prod, sumbool, sumor; no Extract Constant), OCaml 4.13.1, harness/ocaml/driver.ml',
     'correspondence harness: gorunner, godump, goref, Python generators/comparators, message->kind table',
-    'oracles: libm (Go math.Pow/Sin/Cos/Tan via goref), clock, map-iteration schedule, NFC (Python unicodedata)',
+    'oracles: libm (Go math.Pow/Sin/Cos/Tan via goref), clock, map-iteration schedule; NFC is modelled (Model/Nfc.v over tables regenerated from the linked x/text)',
     'modelled, not verified: Go compiler/runtime (float64 on amd64, int64 conversion, map iteration), fmt, strconv, math, unicode, x/text/norm, bufio, os',
 ]
 
